@@ -176,6 +176,7 @@ fn leaf_feature(e: &Expr) -> String {
         }
         Expr::Value(v) => crate::pools::ty(v).to_string(),
         Expr::Reference(n) if n == "f" || n == "d" => format!("Reference[{n}]"),
+        Expr::Symbol(n) if n == "f" || n == "d" => format!("Symbol[{n}]"),
         other => kind(other).to_string(),
     }
 }
@@ -295,6 +296,51 @@ fn run(ctx: &mut Ctx) {
         }
         let c = char::from_u32(cp).unwrap();
         judge(ctx, &Expr::Value(Value::String(format!("a{c}b"))), "string-each-low-character", &mut rng);
+    }
+    // 1c. names: every identifier position (reference, symbol, function name, field step, map key) with names that collide with
+    // literal prefixes or keywords up to one character (f, d, i, e, x, f_, d0x, i5x, inx, nonex …), alone and under every composite kind
+    let names: Vec<String> = {
+        let mut v: Vec<String> = (b'a'..=b'z').map(|c| (c as char).to_string()).collect();
+        for n in ["E", "F", "D", "I", "_", "__", "_1", "f_", "d_", "i_", "f_1", "d0x", "f1e", "f1e5x", "i5x", "x0", "a1", "facts", "facts_", "é", "nonex", "truex", "falsey", "inx", "in_", "ifx", "thenx", "elsex", "andx", "orx", "somex", "intx", "decx", "floatx", "fd", "df", "ff", "dd", "e5", "x1f", "b0b", "o0o"] {
+            v.push(n.to_string());
+        }
+        v
+    };
+    for n in &names {
+        let nodes: Vec<Expr> = vec![
+            Expr::Reference(n.clone()),
+            Expr::Symbol(n.clone()),
+            Expr::func(n, Expr::Reference("r".into())),
+            Expr::index(Expr::Reference("r".into()), Index::from(n.as_str())),
+            Expr::Map([(n.clone(), Expr::Reference("r".into()))].into_iter().collect()),
+            Expr::index(Expr::Symbol("r".into()), Index::from(n.as_str())),
+        ];
+        for node in nodes {
+            if !ctx.mine() {
+                continue;
+            }
+            judge(ctx, &node, "names-in-every-identifier-position", &mut rng);
+            for k in &comps {
+                for slot in 0..arity(k) {
+                    let cs: Vec<Expr> = (0..arity(k)).map(|i| if i == slot { node.clone() } else { Expr::Reference(format!("r{i}")) }).collect();
+                    judge(ctx, &mk(k, cs), "names-in-every-identifier-position", &mut rng);
+                }
+            }
+            // numeric steps of several shapes directly after the name
+            for ix in [4usize, 14, 0, 1_000_000] {
+                judge(ctx, &Expr::index(Expr::index(node.clone(), Index::from(ix)), Index::from(ix)), "names-in-every-identifier-position", &mut rng);
+            }
+        }
+    }
+    // 1d. long lists and maps (a rendering that wraps or abbreviates beyond some length must still parse back)
+    for n in [13usize, 33, 65, 129, 257, 1_025, 5_000] {
+        if !ctx.mine() {
+            continue;
+        }
+        judge(ctx, &Expr::Vec((0..n).map(|i| Expr::value(i as i128)).collect()), "long-lists-and-maps", &mut rng);
+        judge(ctx, &Expr::Vec((0..n).map(|i| if i % 3 == 0 { Expr::value(format!("s\n{i}")) } else { Expr::Reference(format!("r{i}")) }).collect()), "long-lists-and-maps", &mut rng);
+        judge(ctx, &Expr::Map((0..n).map(|i| (format!("k{i}"), Expr::value(i as i128))).collect()), "long-lists-and-maps", &mut rng);
+        judge(ctx, &Expr::func("fun", Expr::Vec((0..n).map(|i| Expr::Vec(vec![Expr::value(i as i128)])).collect())), "long-lists-and-maps", &mut rng);
     }
     // 2. every composite kind in every child slot of every composite kind
     for outer in &comps {
